@@ -1,29 +1,43 @@
-// C09: unbuffered photon::channel - the single rendezvous slot is overwritten by a second send().
-// unbuffered_send() waits only for "a receiver is announced OR the slot is full"; it never waits for the slot to
-// become empty, so a send() that arrives while a value sits in the slot replaces it. Both send() return true and
-// the first value is never received (its heap cell leaks).
-//   A: two queued senders, one receiver (sender, sender, receiver)
-//   B: ONE sender: try_send(1) succeeded (receiver announced, not yet rescheduled), then send(2)
-// build: g++ -std=c++17 -O1 -g -I/repo/include C09_unbuffered_slot_overwrite.cpp -L<libdir> -lphoton -Wl,-rpath,<libdir>
+// C09: unbuffered photon::channel with more than one value "in flight".
+// unbuffered_send() waits only until "a receiver is announced OR the slot is full"; it never waits for the single
+// rendezvous slot (m_handoff_ptr / m_handoff_ready) to become EMPTY, and both phases of every sender ("wait for a
+// receiver" and "wait until my value was taken") sleep on the same condition variable that is woken with notify_one().
+//   A: sender, receiver, second sender before the receiver is rescheduled: the slot is overwritten, both send()
+//      return true, one value is never received (its heap cell leaks)
+//   B: ONE sender thread: try_send(1) succeeded (receiver announced, not yet rescheduled), then send(2): overwritten
+//   C: two queued senders, then a receiver: nothing is lost, but the notify_one() issued when a value is taken wakes
+//      the sender that still waits for a receiver instead of the one whose value was taken: that sender stays
+//      blocked in send() although its value was received (and, with a receiver announced, sender and receiver
+//      can both stay blocked)
+// build: g++ -std=c++17 -O1 -g -I/repo/include C09_unbuffered_slot_overwrite.cpp -L<libdir> -lphoton -Wl,-rpath,<libdir> -lpthread
 #include <photon/thread/thread.h>
 #include <photon/thread/thread11.h>
 #include <photon/thread/go.h>
 #include <cstdio>
 using namespace photon;
 
+struct Snd { int ret = -1; bool done = false; };
+static join_handle* sender(channel<int>& ch, int v, Snd& s, bool use_try_then_send = false) {
+    return thread_enable_join(thread_create11([&ch, v, &s] { s.ret = ch.send(v); s.done = true; }));
+}
+
 static int scenario_A() {
     channel<int> ch;
-    bool s1 = false, s2 = false, r1 = false, r2 = false;
+    Snd s1, s2;
+    bool r1 = false, r2 = false;
     int v1 = 0, v2 = 0;
-    auto a = thread_enable_join(thread_create11([&] { s1 = ch.send(1); }));
-    auto b = thread_enable_join(thread_create11([&] { s2 = ch.send(2); }));
-    thread_usleep(1000);                       // both senders are queued, no receiver yet
-    r1 = ch.recv(v1, 100 * 1000);
-    r2 = ch.recv(v2, 100 * 1000);              // second value: never arrives
+    auto a = sender(ch, 1, s1);
+    thread_usleep(1000);                       // sender 1 is queued, no receiver yet
+    auto r = thread_enable_join(thread_create11([&] { r1 = ch.recv(v1, 100 * 1000); r2 = ch.recv(v2, 100 * 1000); }));
+    auto b = sender(ch, 2, s2);                // arrives right behind the receiver
+    thread_join(r);
+    thread_usleep(1000);
+    printf("A sender,receiver,sender : send(1)=%d send(2)=%d | recv#1=%d (value %d) recv#2=%d (value %d)  %s\n", s1.ret, s2.ret, r1, v1, r2, v2,
+           (s1.ret == 1 && s2.ret == 1 && !(r1 && r2)) ? "=> a value reported sent was LOST" : "");
+    int bad = (s1.ret == 1 && s2.ret == 1 && !(r1 && r2));
+    ch.close();
     thread_join(a); thread_join(b);
-    printf("A two queued senders : send(1)=%d send(2)=%d | recv#1=%d (value %d) recv#2=%d (value %d)  %s\n", s1, s2, r1, v1, r2, v2,
-           (s1 && s2 && !(r1 && r2)) ? "=> a value reported sent was LOST" : "ok");
-    return s1 && s2 && !(r1 && r2);
+    return bad;
 }
 static int scenario_B() {
     channel<int> ch;
@@ -32,15 +46,35 @@ static int scenario_B() {
     auto r = thread_enable_join(thread_create11([&] { r1 = ch.recv(v1, 100 * 1000); r2 = ch.recv(v2, 100 * 1000); }));
     thread_usleep(1000);                       // the receiver is announced and waits
     t1 = ch.try_send(1);                       // true: placed in the slot, receiver made runnable
-    s2 = ch.send(2);                           // same thread, no yield in between: overwrites the slot
+    s2 = ch.send(2, 50 * 1000);                // same thread, no yield in between: overwrites the slot
     thread_join(r);
-    printf("B try_send then send : try_send(1)=%d send(2)=%d | recv#1=%d (value %d) recv#2=%d (value %d)  %s\n", t1, s2, r1, v1, r2, v2,
-           (t1 && s2 && !(r1 && r2)) ? "=> a value reported sent was LOST" : "ok");
+    printf("B try_send then send     : try_send(1)=%d send(2)=%d | recv#1=%d (value %d) recv#2=%d (value %d)  %s\n", t1, s2, r1, v1, r2, v2,
+           (t1 && s2 && !(r1 && r2)) ? "=> a value reported sent was LOST" : "");
     return t1 && s2 && !(r1 && r2);
 }
+static int scenario_C() {
+    channel<int> ch;
+    Snd s1, s2;
+    bool r1 = false, r2 = false;
+    int v1 = 0, v2 = 0;
+    auto a = sender(ch, 1, s1);
+    auto b = sender(ch, 2, s2);
+    thread_usleep(1000);                       // both senders are queued, no receiver yet
+    r1 = ch.recv(v1, 100 * 1000);
+    r2 = ch.recv(v2, 100 * 1000);
+    thread_usleep(200 * 1000);
+    bool stuck1 = !s1.done, stuck2 = !s2.done;
+    printf("C sender,sender,receiver : recv#1=%d (value %d) recv#2=%d (value %d) | 200 ms later: send(1) %s, send(2) %s  %s\n", r1, v1, r2, v2,
+           stuck1 ? "STILL BLOCKED" : "returned", stuck2 ? "STILL BLOCKED" : "returned",
+           (r1 && r2 && (stuck1 || stuck2)) ? "=> a sender whose value was received is not released" : "");
+    ch.close();
+    thread_join(a); thread_join(b);
+    return r1 && r2 && (stuck1 || stuck2);
+}
 int main() {
+    setvbuf(stdout, nullptr, _IOLBF, 0);
     vcpu_init();
-    int bad = scenario_A() + scenario_B();
+    int bad = scenario_A() + scenario_B() + scenario_C();
     vcpu_fini();
     return bad ? 1 : 0;
 }
